@@ -1846,20 +1846,30 @@ impl Runner {
                 batch.push_back(self.w.attacker_tx(&TxK::BadSig, rng));
                 batch.push_back(self.w.attacker_tx(&TxK::Unfunded, rng));
                 let staged_before = self.w.n.consensus.txs_for_mempool.len();
-                let synced = {
+                // reference: Transaction::validate itself on N's ledger (what verify_txs must apply to each element)
+                let expect = {
                     let bc = self.w.n.blockchain.read().await;
-                    bc.get_latest_block_id() > 0
+                    let pk = self.w.n.pk;
+                    let mut k = 0usize;
+                    for t in batch.iter() {
+                        let mut t = t.clone();
+                        t.generate(&pk, 0, 0);
+                        if t.validate(&bc.utxoset, &bc, true) {
+                            k += 1;
+                        }
+                    }
+                    k
                 };
+                let _ = n_valid;
                 let n = self.w.n.name;
                 futures_catch(AssertUnwindSafe(self.w.n.verification.process_event(VerifyRequest::Transactions(batch))))
                     .await
                     .map_err(|m| Stop::Panic(take_panic(n, "verification::process_event(Transactions)", m)))?;
                 self.w.pump().await?;
                 let staged_after = self.w.n.consensus.txs_for_mempool.len();
-                // verify_txs lets exactly the valid ones through (on a node that has the chain the inputs live on)
-                let expect = if synced { n_valid } else { 0 };
+                // verify_txs lets exactly the valid ones through
                 if staged_after.saturating_sub(staged_before) != expect {
-                    self.limiter_failures.push(format!("VerificationThread::verify_txs let {} of 3 transactions through, {} are valid", staged_after.saturating_sub(staged_before), expect));
+                    self.limiter_failures.push(format!("VerificationThread::verify_txs let {} of the batch through, Transaction::validate accepts {}", staged_after.saturating_sub(staged_before), expect));
                 }
             }
             Act::NMine => {
@@ -2136,7 +2146,29 @@ async fn run_case(spec: &CaseSpec) -> CaseOut {
         if served_kind.starts_with("UnknownParent") && !spec.loading_completed {
             r.w.orphan_delivered = true;
         }
+        let mut pre_err: Option<Stop> = None;
         let before = if frame {
+            // honest work that is still under way (a chain sync from B spread over several fetch rounds) must
+            // not be charged to the attacker's step: let it finish first (clock unchanged)
+            if r.w.link {
+                let mut last = format!("{:?}", futures_catch(AssertUnwindSafe(r.w.digest(sender))).await.ok());
+                for _ in 0..6 {
+                    let res = async {
+                        r.w.n_timer(2000, true).await?;
+                        r.w.pump().await
+                    }
+                    .await;
+                    if let Err(e) = res {
+                        pre_err = Some(e);
+                        break;
+                    }
+                    let now = format!("{:?}", futures_catch(AssertUnwindSafe(r.w.digest(sender))).await.ok());
+                    if now == last {
+                        break;
+                    }
+                    last = now;
+                }
+            }
             match futures_catch(AssertUnwindSafe(r.w.digest(sender))).await {
                 Ok(d) => Some(d),
                 Err(m) => {
@@ -2148,7 +2180,10 @@ async fn run_case(spec: &CaseSpec) -> CaseOut {
             None
         };
         let calls0 = r.w.n.calls + r.w.b.calls;
-        let res = r.step(act, &mut rng).await;
+        let res = match pre_err {
+            Some(e) => Err(e),
+            None => r.step(act, &mut rng).await,
+        };
         r.out.steps_run = pos + 1;
         r.out.stats.push(("action".to_string(), act.label().split('(').next().unwrap_or("").to_string()));
         if let Act::AMsg(_, m) | Act::AFlood(_, m, _) = act {
@@ -2524,7 +2559,7 @@ fn random_case(rng: &mut Rng, thorough: bool) -> CaseSpec {
                     0..=5 => ServeK::AsAnnounced,
                     6 => match rng.below(4) {
                         0 => ServeK::Truncated,
-                        1 => ServeK::CutAt(rng.below(1001) as u16),
+                        1 => ServeK::CutAt(rng.below(1000) as u16),
                         2 => ServeK::CountPatched(1 + rng.below(15) as u8),
                         _ => ServeK::HeaderOnly(1 + rng.below(15) as u8),
                     },
